@@ -120,6 +120,18 @@ def gen(rng, tier, run):
                 big = [ax for ax, n in enumerate(shp) if n >= 2]
                 if big and rng.random() < 0.15:
                     shp[rng.choice(big)] += 2          # cannot be broadcast
+                elif shp and all(v['bins'] for v in variables) and rng.random() < 0.15:
+                    # can be broadcast, to a LARGER shape than the dataset's (whose bins would no longer fit)
+                    ones = [ax for ax, n in enumerate(shp) if n == 1]
+                    if ones and rng.random() < 0.6:
+                        shp[rng.choice(ones)] = rng.choice([2, 3])
+                        if rng.random() < 0.5:
+                            while shp and shp[0] == 1:     # numpy aligns trailing axes: (n,) against (n, 1) gives (n, n)
+                                shp.pop(0)
+                            if len(shp) == 1 and len(shapes[src]) == 2 and shapes[src][1] == 1:
+                                shp = [shapes[src][0]]
+                    else:
+                        shp = [2] + shp
                 size = 1
                 for n in shp:
                     size *= n
@@ -147,7 +159,19 @@ def gen(rng, tier, run):
         # left untouched and that results are well formed
         size = len(variables[0]['value'])
         case['masks'] = [[rng.random() < 0.3 for _ in range(len(v['value']))] for v in variables]
-        case['cmds'] = [c for c in cmds if c['k'] in ('arith', 'copy')]
+        kept = [c for c in cmds if c['k'] in ('arith', 'copy')]
+        # masks applied again along the chain, to already masked datasets and to results (fresh destinations)
+        out, fresh = [], len(shapes) + 1
+        for c in kept:
+            out.append(c)
+            if rng.random() < 0.5:
+                out.append({'k': 'mask', 'dst': fresh, 'src': rng.choice([c['dst'], c['src'], rng.randrange(len(variables))]),
+                            'm': [rng.random() < 0.35 for _ in range(12)]})
+                fresh += 1
+        if not out or rng.random() < 0.5:
+            out.insert(0, {'k': 'mask', 'dst': fresh, 'src': rng.randrange(len(variables)),
+                           'm': [rng.random() < 0.35 for _ in range(12)]})
+        case['cmds'] = out
     if not pokes_legal(case):
         case['cmds'] = [c for c in cmds if c['k'] != 'poke']
     return case
@@ -233,6 +257,8 @@ def classify(exc):
         return 'binValues'
     if 'same shape' in msg or 'broadcast' in msg:
         return 'shape'
+    if 'Number of dimensions of bins does not' in msg or 'Number of bins does not correspond to value shape' in msg:
+        return 'shape'      # the constructor rejects a value that an array operand broadcast to another shape
     return f'ValueError: {msg}'[:120]
 
 
@@ -307,6 +333,16 @@ def run_impl(case, run):
                 src = get(cmd['src'])
                 if src is not None:
                     put(cmd['dst'], src.squeeze())
+            elif cmd['k'] == 'mask':
+                src = get(cmd['src'])
+                if src is not None:
+                    size = int(np.size(src.value))
+                    msk = np.array([cmd['m'][i % len(cmd['m'])] for i in range(size)], dtype=bool).reshape(np.shape(src.value))
+                    res = src.mask(msk)
+                    fact['mask_wf'] = (np.shape(res.value) == np.shape(src.value) == np.shape(res.error)
+                                       and bool((np.ma.getmaskarray(res.error) == (np.ma.getmaskarray(src.error) | msk)).all())
+                                       and bool((np.ma.getmaskarray(res.value) == (np.ma.getmaskarray(src.value) | msk)).all()))
+                    put(cmd['dst'], res)
             elif cmd['k'] == 'poke':
                 tgt = get(cmd['v'])
                 if tgt is not None:
@@ -346,7 +382,8 @@ def check_result(cmd, left, right, res, before):
     plain = {'+': lv + rv, '-': lv - rv, '*': lv * rv, '/': lv / rv}[op]
     val = np.asarray(res.value, dtype=float)
     err = np.asarray(res.error, dtype=float)
-    out['shape_ok'] = bool(val.shape == err.shape == lv.shape)
+    # with bins the result keeps the shape the bins describe; without bins an array operand may broadcast it
+    out['shape_ok'] = bool(val.shape == err.shape and (val.shape == lv.shape or not left.bins))
     out['value_ok'] = bool(val.shape == plain.shape and np.array_equal(val, plain, equal_nan=True))
     out['bins_ok'] = bool(list(res.bins) == list(left.bins)
                           and all(np.array_equal(res.bins[k], left.bins[k], equal_nan=True) for k in left.bins))
@@ -433,6 +470,9 @@ def oracle(case, impl, run):
         i = fact['i']
         if fact.get('modified'):
             fails.append(('operands_unchanged', f"command #{i} ({case['cmds'][i]['k']}) changed variable(s) {fact['modified']}"))
+        if fact['k'] == 'mask' and fact.get('mask_wf') is False:
+            fails.append(('result_wf', f"command #{i}: masking gives value/error of different shapes, or masks that are not the union "
+                                       'of the old and the new mask'))
         if fact['k'] == 'copy':
             if fact.get('shared'):
                 fails.append(('copy_shares_nothing', f"command #{i}: the copy shares {fact['shared']} with its original"))
@@ -442,7 +482,7 @@ def oracle(case, impl, run):
             cmd = case['cmds'][i]
             what = f"command #{i}: v{cmd['src']} {cmd['op']} {cmd['rhs']['k']}"
             if not fact['shape_ok']:
-                fails.append(('result_wf', what + ': value/error shapes differ from the left operand'))
+                fails.append(('result_wf', what + ': value and error of different shapes, or not the shape of the left operand (whose bins are kept)'))
             if not fact['value_ok'] and not case.get('masks'):
                 fails.append(('value_plain_op', what + ': value is not the plain array operation'))
             if not fact['bins_ok']:
